@@ -249,6 +249,10 @@ impl<Db: Database> InternalStorage<Db> {
         &&& forall|i: int| 0 <= i < roots.len() ==> in_queue_or_done(#[trigger] roots[i], processed, queue)
         &&& forall|q: ParamId| #[trigger] pp.contains(q) && o.has_param(q) ==> param_copied(o, q, npmap, nparams)
         &&& forall|q: ParamId| #[trigger] npmap.contains_key(q) ==> pp.contains(q) && o.has_param(q)
+        // every copy got a slot of its own (fresh pushes): the new storage is well-formed again
+        &&& forall|a: DerivedNodeId, b: DerivedNodeId| #[trigger] nmap.contains_key(a) && #[trigger] nmap.contains_key(b) && a != b ==>
+                nmap[a].node_index.idx != nmap[b].node_index.idx && nmap[a].dependency_index.idx != nmap[b].dependency_index.idx
+        &&& forall|p: ParamId, q: ParamId| #[trigger] npmap.contains_key(p) && #[trigger] npmap.contains_key(q) && p != q ==> npmap[p].idx != npmap[q].idx
     }
 }
 
@@ -287,6 +291,9 @@ impl<Db: Database> InternalStorage<Db> {
             final(self).source_node_key_to_index@ == old(self).source_node_key_to_index@
                 && final(self).source_nodes@ == old(self).source_nodes@
                 && final(self).current_epoch == old(self).current_epoch, //@O C03.O-2_collection_leaves_sources_and_clock_alone
+            // the representation invariant holds again: the next collection (and every lookup
+            // in between) finds a well-formed storage
+            final(self).wf(), //@O C03.O-2_collection_re_establishes_the_representation_invariant
 //@before "let mut derived_node_id_queue"
         let ghost roots = retained_derived_node_ids@;
 //@before "'derived_node_id_queue: while"
@@ -549,7 +556,7 @@ impl<Db: Database> Storage<Db> {
             forall|id: DerivedNodeId| #[trigger] final(self).internal.has(id) ==> old(self).internal.has(id) && final(self).internal.kept(&old(self).internal, id), //@O C03.O-3_survivors_unchanged
             forall|id: DerivedNodeId, d: DerivedNodeId| final(self).internal.has(id) && #[trigger] is_dep(old(self).internal.deps(id), d) ==> final(self).internal.has(d), //@O C03.O-3_survivors_closed_under_dependencies
             // the state stays usable for the next collection
-            final(self).roots_live(),
+            final(self).roots_live() && final(self).internal.wf(), //@O C03.O-3_storage_invariants_hold_for_the_next_collection
 //@before "for derived_node_id in"
         let ghost calls = top_level_function_calls@;
         let ghost lru0 = self.top_level_call_lru_cache.order();
